@@ -353,4 +353,120 @@ theorem sidx_tiles (starts sizes : List Nat) (hl : starts.length = sizes.length)
   rw [hl]; omega
 
 
+/-! ### several top-level sidx boxes: the running reference counter -/
+
+/-- the segment starts one top-level sidx lists: running sums of the referenced sizes from its anchor point, one per
+    reference, up to (not including) its first reference_type 1 entry -/
+def leafStarts : List (Nat × Nat) → Nat → List Nat
+  | [], _ => []
+  | (ty, sz) :: rest, start => if ty = 1 then [] else start :: leafStarts rest (start + sz)
+
+/-- the segment starts listed by ALL top-level sidx boxes, in box order -/
+def allStarts (sidxs : List Sidx) : List Nat := sidxs.flatMap fun sx => leafStarts sx.refs sx.anchor
+
+theorem refsLoop_spec (pos k : Nat) (refs : List (Nat × Nat)) (start idx : Nat) :
+    sidxStart.refsLoop pos k refs start idx =
+      if idx ≤ k ∧ (leafStarts refs start)[k - idx]? = some pos then (some true, k)
+      else (none, idx + (leafStarts refs start).length) := by
+  induction refs generalizing start idx with
+  | nil => simp [sidxStart.refsLoop, leafStarts]
+  | cons r rest ih =>
+    obtain ⟨ty, sz⟩ := r
+    unfold sidxStart.refsLoop leafStarts
+    by_cases hty : ty = 1
+    · simp [hty]
+    · simp only [hty, if_false]
+      by_cases hfound : pos = start ∧ idx = k
+      · obtain ⟨hp, hi⟩ := hfound
+        subst hp hi
+        simp
+      · rw [if_neg hfound, ih]
+        rcases Nat.lt_trichotomy idx k with hlt | heq | hgt
+        · have h1 : k - idx = (k - (idx + 1)) + 1 := by omega
+          have h2 : idx + 1 ≤ k := hlt
+          have h3 : idx ≤ k := by omega
+          rw [h1, List.getElem?_cons_succ]
+          simp only [h2, h3, true_and, List.length_cons]
+          split <;> simp <;> omega
+        · subst heq
+          have hne : ¬ pos = start := fun h => hfound ⟨h, rfl⟩
+          have h2 : ¬ idx + 1 ≤ idx := by omega
+          simp [h2, Ne.symm hne]
+          omega
+        · have h2 : ¬ idx + 1 ≤ k := by omega
+          have h3 : ¬ idx ≤ k := by omega
+          simp [h2, h3]; omega
+
+theorem go_spec (pos k : Nat) (sidxs : List Sidx) (idx : Nat) :
+    sidxStart.go pos k sidxs idx = decide (idx ≤ k ∧ (allStarts sidxs)[k - idx]? = some pos) := by
+  induction sidxs generalizing idx with
+  | nil => simp [sidxStart.go, allStarts]
+  | cons sx rest ih =>
+    unfold sidxStart.go
+    rw [refsLoop_spec]
+    have hall : allStarts (sx :: rest) = leafStarts sx.refs sx.anchor ++ allStarts rest := by
+      simp [allStarts]
+    rw [hall]
+    by_cases hc : idx ≤ k ∧ (leafStarts sx.refs sx.anchor)[k - idx]? = some pos
+    · rw [if_pos hc]
+      obtain ⟨h1, h2⟩ := hc
+      have hlt : k - idx < (leafStarts sx.refs sx.anchor).length := by
+        rcases List.getElem?_eq_some_iff.mp h2 with ⟨h, _⟩; exact h
+      simp [h1, List.getElem?_append_left hlt, h2]
+    · rw [if_neg hc]
+      simp only [ih]
+      congr 1
+      apply propext
+      by_cases hle : idx ≤ k
+      · by_cases hlt : k - idx < (leafStarts sx.refs sx.anchor).length
+        · have hn : ¬ idx + (leafStarts sx.refs sx.anchor).length ≤ k := by omega
+          rw [List.getElem?_append_left hlt]
+          constructor
+          · intro h; exact absurd h.1 hn
+          · intro h; exact absurd h hc
+        · have hge : (leafStarts sx.refs sx.anchor).length ≤ k - idx := by omega
+          rw [List.getElem?_append_right hge]
+          have he : k - (idx + (leafStarts sx.refs sx.anchor).length) = k - idx - (leafStarts sx.refs sx.anchor).length := by omega
+          rw [he]
+          constructor
+          · intro h; exact ⟨hle, h.2⟩
+          · intro h; exact ⟨by omega, h.2⟩
+      · constructor
+        · intro h; omega
+        · intro h; exact absurd h.1 hle
+
+/-- **the multi-sidx rule**: with any number of top-level sidx boxes, segment number `k` (counted over the whole file)
+    starts at `pos` exactly when `pos` is the `k`-th entry of the reference starts of all the boxes taken together:
+    the reference counter runs on from one box to the next, each box measuring from its own anchor point -/
+theorem sidxStart_spec (sidxs : List Sidx) (pos k : Nat) :
+    sidxStart sidxs pos k = true ↔ (allStarts sidxs)[k]? = some pos := by
+  simp [sidxStart, go_spec]
+
+/-- hence, for a moof that does not complete a fragment opened by an emsg, in a file delimited by top-level sidx boxes
+    with at least one segment open: a new segment starts iff the moof sits at the next listed reference start -/
+theorem sidx_moof_step (st : St) (it : Item) (sidxOf : Item → Option Sidx) (hk : it.kind = .moof)
+    (hs : st.sidxs ≠ []) (hne : st.segs ≠ []) (hop : isOpen st = false) (st' : St)
+    (h : addChild st it sidxOf = some st') :
+    st'.segs.length =
+      st.segs.length + (if (allStarts st.sidxs)[st.segs.length]? = some it.pos then 1 else 0) := by
+  have hlen : st.segs.length ≠ 0 := by cases hsg : st.segs <;> simp_all
+  rw [addChild_moof _ _ _ hk, hop] at h
+  simp only [Bool.false_eq_true, if_false] at h
+  have hst : (startIfNeeded st it.pos).segs =
+      if (allStarts st.sidxs)[st.segs.length]? = some it.pos then st.segs ++ [{ startPos := it.pos }] else st.segs := by
+    unfold startIfNeeded
+    simp only [hs, ne_eq, not_false_eq_true, if_true, hlen, or_false]
+    by_cases hc : (allStarts st.sidxs)[st.segs.length]? = some it.pos
+    · simp [hc, (sidxStart_spec _ _ _).mpr hc]
+    · have : sidxStart st.sidxs it.pos st.segs.length = false := by
+        cases hb : sidxStart st.sidxs it.pos st.segs.length
+        · rfl
+        · exact absurd ((sidxStart_spec _ _ _).mp hb) hc
+      simp [hc, this]
+  have hne' : (startIfNeeded st it.pos).segs ≠ [] := by
+    rw [hst]; split <;> simp [hne]
+  simp only [hne', if_false, Option.some.injEq] at h
+  rw [← h, updLastSeg_length, updLastSeg_length, hst]
+  split <;> simp
+
 end Mp4ff.Segments
